@@ -59,6 +59,33 @@ func isPeerish(t types.Type) bool {
 		strings.HasSuffix(s, "k8s.PodPeer") || strings.HasSuffix(s, "k8s.WorkloadPeer") || strings.HasSuffix(s, "k8s.IPBlockPeer") || strings.HasSuffix(s, "k8s.Pod")
 }
 
+// carrierStruct: t (or what it points to) is a struct type of the module that is not itself a peer and has a peer field.
+func carrierStruct(t types.Type) (*types.Struct, *types.Named) {
+	if t == nil || isPeerish(t) {
+		return nil, nil
+	}
+	if pt, ok := t.Underlying().(*types.Pointer); ok {
+		t = pt.Elem()
+		if isPeerish(t) {
+			return nil, nil
+		}
+	}
+	nt, ok := t.(*types.Named)
+	if !ok || nt.Obj().Pkg() == nil || !strings.HasPrefix(nt.Obj().Pkg().Path(), core.ModPath) {
+		return nil, nil
+	}
+	st, ok := nt.Underlying().(*types.Struct)
+	if !ok {
+		return nil, nil
+	}
+	for i := 0; i < st.NumFields(); i++ {
+		if isPeerish(st.Field(i).Type()) {
+			return st, nt
+		}
+	}
+	return nil, nil
+}
+
 func (a *roleAnalysis) set(o types.Object, r Role) {
 	if o == nil || r == RoleNone {
 		return
@@ -82,8 +109,15 @@ func (a *roleAnalysis) exprRole(info *types.Info, e ast.Expr) Role {
 	case *ast.UnaryExpr:
 		return a.exprRole(info, x.X)
 	case *ast.SelectorExpr:
-		// peer.Pod, currentPeer.Pod: a field of a roled value keeps the role
-		if core.FieldOf(info, x) != nil {
+		// q.src, q.dst: a peer field of a parameter object (a module struct that is not itself a peer) has the role of
+		// what was stored in that field
+		if f := core.FieldOf(info, x); f != nil {
+			if isPeerish(f.Type()) && !isPeerish(info.TypeOf(x.X)) {
+				if r, ok := a.roles[f]; ok {
+					return r
+				}
+			}
+			// peer.Pod, currentPeer.Pod: a field of a roled value keeps the role
 			return a.exprRole(info, x.X)
 		}
 	case *ast.CallExpr:
@@ -101,6 +135,27 @@ func (a *roleAnalysis) exprRole(info *types.Info, e ast.Expr) Role {
 		}
 		return r
 	case *ast.CompositeLit:
+		// a parameter object: a module struct that is not a peer but carries peers - each peer field takes the role of
+		// its value, the object as a whole has none
+		if st, nt := carrierStruct(info.TypeOf(x)); st != nil {
+			for i, el := range x.Elts {
+				var fld *types.Var
+				val := el
+				if kv, ok := el.(*ast.KeyValueExpr); ok {
+					val = kv.Value
+					if id, isID := kv.Key.(*ast.Ident); isID {
+						fld, _ = info.ObjectOf(id).(*types.Var)
+					}
+				} else if i < st.NumFields() {
+					fld = st.Field(i)
+				}
+				if fld != nil && isPeerish(fld.Type()) {
+					a.set(fld, a.exprRole(info, val))
+				}
+			}
+			_ = nt
+			return RoleNone
+		}
 		var r Role
 		for _, el := range x.Elts {
 			if kv, ok := el.(*ast.KeyValueExpr); ok {
@@ -165,6 +220,18 @@ func (a *roleAnalysis) propagate(fd *core.FuncDecl) {
 					if id, ok := l.(*ast.Ident); ok && id.Name != "_" {
 						if o := info.ObjectOf(id); o != nil && isPeerish(o.Type()) {
 							a.set(o, a.exprRole(info, x.Rhs[i]))
+						}
+					}
+				}
+			}
+			// q.src = e: a peer field of a parameter object
+			if len(x.Rhs) == len(x.Lhs) {
+				for i, l := range x.Lhs {
+					if se, ok := ast.Unparen(l).(*ast.SelectorExpr); ok {
+						if f := core.FieldOf(info, se); f != nil && isPeerish(f.Type()) {
+							if st, _ := carrierStruct(info.TypeOf(se.X)); st != nil {
+								a.set(f, a.exprRole(info, x.Rhs[i]))
+							}
 						}
 					}
 				}
